@@ -168,6 +168,30 @@ func evalC09(c *engine.Case) engine.Verdict {
 		s2 := stepScenario(st)
 		return engine.SingleInput(s2) || (!engine.DepCyclic(s2, engine.RPlus) && engine.AllConvsSatisfiable(s2, engine.RMinus))
 	}
+	// route uniqueness too is a property of the inputs a step really passes:
+	// withholding an input can un-shadow another one under the same key
+	// ("last wins") and give a parameter a second candidate
+	uniqueFor := func(st C09Step) bool {
+		s2 := stepScenario(st)
+		srcs := engine.AllSourceLabels(s2)
+		fs := append([]engine.FuncSpec{s2.Target}, s2.Convs...)
+		for i := range fs {
+			for _, p := range fs[i].In {
+				if engine.Candidates(p, srcs, engine.RPlus) > 1 {
+					return false
+				}
+			}
+		}
+		return true
+	}
+	uniqueAll := func() bool {
+		for _, st := range x.Steps {
+			if !uniqueFor(st) {
+				return false
+			}
+		}
+		return true
+	}
 	argsFor := func(w *engine.World, st C09Step) []argmapper.Arg {
 		if x.AllDefaults {
 			return nil
@@ -329,7 +353,7 @@ func evalC09(c *engine.Case) engine.Verdict {
 					}
 				}
 			}
-			uniqueHere := unique
+			uniqueHere := unique && uniqueFor(st)
 			if st.Op == "convert" {
 				// Convert's implicit type-only parameter must have a unique source too
 				t := sc.Target.In[0].Type
@@ -393,7 +417,7 @@ func evalC09(c *engine.Case) engine.Verdict {
 				v.Failf("step %d (earlier redefined function called again): %s", si, msg)
 				return v
 			}
-			if unique && len(onceIDs) == 0 && !hasFailing(sc) && wellFor(x.Steps[oldStep]) {
+			if unique && uniqueFor(x.Steps[oldStep]) && len(onceIDs) == 0 && !hasFailing(sc) && wellFor(x.Steps[oldStep]) {
 				if a := outcomeClass(o2); a != oldClass {
 					v.Failf("step %d: the function returned by the Redefine of step %d now gives outcome %s, its first call gave %s", si, oldStep, a, oldClass)
 					return v
@@ -415,7 +439,7 @@ func evalC09(c *engine.Case) engine.Verdict {
 				v.Failf("step %d: run-once converter f%d executed %d times", si, id, real.Execs[id])
 				return v
 			}
-			if well && unique && !diverged && !hasFailing(sc) && real.Execs[id] != twin.Execs[id] {
+			if well && unique && uniqueAll() && !diverged && !hasFailing(sc) && real.Execs[id] != twin.Execs[id] {
 				v.Failf("step %d: run-once converter f%d executed %d time(s), in the twin without Redefine %d", si, id, real.Execs[id], twin.Execs[id])
 				return v
 			}
